@@ -239,3 +239,38 @@ func max(a, b int) int {
 	}
 	return b
 }
+
+// ValidateTrampoline validates a written trampoline whose length is not known: it walks original and relocated
+// instructions in lock step until at least `least` original bytes are covered and the relocated stream continues
+// with a jump to original+covered; then it validates the covered prefix like Validate.
+func ValidateTrampoline(orig []byte, origAddr uint64, tramp []byte, trampAddr uint64, least int) (Info, int, error) {
+	p, q := 0, 0
+	for steps := 0; steps < 64; steps++ {
+		if p >= least {
+			// does the relocated stream continue with the jump back to original+p ?
+			if q+5 <= len(tramp) {
+				if r, err := x86eval.EvalJump(tramp[q:q+5], 64, trampAddr+uint64(q)); err == nil && r.Kind == "rel" && r.Target == origAddr+uint64(p) {
+					info, verr := Validate(orig, origAddr, p, tramp[:q], trampAddr, least)
+					return info, q + 5, verr
+				}
+			}
+		}
+		if p >= len(orig) || q >= len(tramp) {
+			break
+		}
+		oi, err := refx86.Decode(orig[p:], 64)
+		if err != nil {
+			return Info{}, 0, fmt.Errorf("reference decoder cannot decode the original at +%d: no oracle", p)
+		}
+		ri, err := refx86.Decode(tramp[q:], 64)
+		if err != nil {
+			return Info{}, 0, fmt.Errorf("trampoline undecodable at +%d (% x) where the original has %v", q, tramp[q:min(q+8, len(tramp))], oi)
+		}
+		if oi.Op != ri.Op {
+			return Info{}, 0, fmt.Errorf("trampoline instruction at +%d is %v, the original at +%d is %v (and no jump back to original+%d precedes it)", q, ri, p, oi, p)
+		}
+		p += oi.Len
+		q += ri.Len
+	}
+	return Info{}, 0, fmt.Errorf("no jump back to the original found in the trampoline after %d original bytes", p)
+}
